@@ -154,10 +154,15 @@ theorem b2mPredCheck_ok (t : Tbl) (hw : WF t) : b2mPredCheck t = true := by
 
 /-! ### `assert_consistent` -/
 
+/-- every entry `(level, low, high) ↦ u` of `_pred` is the triple of the stored node `u`
+(no stray entries; the same notion as `PredNodes` of DDProofs.DumpJson) -/
+def PredExact (m : Mgr) : Prop :=
+  ∀ (k : List Int) (u : Nat), m.pred[k]? = some u → ∃ n, m.tbl.succ[u]? = some n ∧ n.key = k
+
 /-- `assert_consistent()` passes on a manager satisfying the invariant with exact counts whose
-roots are nodes and whose unique table has as many entries as there are nodes -/
+roots are nodes and whose unique table has no stray entries -/
 theorem bddAssertConsistent_ok (m : Mgr) (ext : Nat → Nat) (hI : Inv m) (hR : RefExact m ext)
-    (hr : ∀ r ∈ m.roots, m.tbl.Mem r) (hsize : m.pred.size = m.tbl.succ.size) :
+    (hr : ∀ r ∈ m.roots, m.tbl.Mem r) (hp : PredExact m) :
     bddAssertConsistent m = (.ok (), m) := by
   have hW := hI.wf.toWF
   unfold bddAssertConsistent
@@ -172,7 +177,16 @@ theorem bddAssertConsistent_ok (m : Mgr) (ext : Nat → Nat) (hI : Inv m) (hR : 
     rw [this] at h1
     simp at h1
   · split
-    · next h2 => exact absurd hsize h2
+    · next h2 =>
+      exfalso
+      simp only [Bool.not_eq_true', List.all_eq_false] at h2
+      obtain ⟨x, hx, hfx⟩ := h2
+      obtain ⟨k, u⟩ := x
+      have hk : m.pred[k]? = some u := TreeMap.mem_toList_iff_getElem?_eq_some.mp hx
+      obtain ⟨n, hn, hkey⟩ := hp k u hk
+      apply hfx
+      simp only [hn]
+      simpa using hkey
     · split
       · rfl
       · next h3 =>
